@@ -15,6 +15,9 @@ CFG = {
             600
         ]
     ],
+    # subs whose model output is proved equal to the independent specification encoder
+    # (C06_layout_*): a model/implementation disagreement there is a concrete failing input
+    "spec_subs": {"msg_enc": ["theories/Proofs/CodecP.vo", "theories/Model/MsgRun.vo"]},
     "rule": "msg: boundary-heavy message values (string lengths 0/1/254/255/256/65535/65536, ttl {0,1,2^31,2^32-1}, span patterns, 0..255 headers, small payload capacities) encoded by the real Frame.write+WriteOut vs the model (msg_enc); the valid encoding, junk-extended, random strict prefixes and byte-mutated payloads decoded by the real message.read vs the model (msg_dec); frames ++ junk, truncated frames and mutated size/reserved fields through the real Frame.ReadIn (frame_in). msgwire: a real client channel (frame pool with stale header bytes) against a raw TCP peer that parses/produces frames with an encoder written from the protocol document; sub callwire: the call req frames the real reqResWriter put on the wire (1..3 fragments) vs the reqResWriter model (Model/CallWire.v call_frames, the C01 writer inside), and for an unfragmented call req byte equality with a complete-payload encoder written from the protocol document (flags ttl tracing service~1 headers csumtype csum arg1~2 arg2~2 arg3~2). Every case counts as non-trivial; distinct by input.",
     "trusted_base": COMMON_TRUSTED + [
         "regenerated from source on every run and proved equal to the hand model: (C06_typedbuf_generated) every loop-free method of typed.ReadBuffer / typed.WriteBuffer and the Update methods of the deferred references (Gen/GenTypedBuf.v); (C06_messages_generated) read/write of callReq, callRes, errorMessage, cancelMessage, initMessage, transportHeaders (loops included), noBodyMsg, callResContinue, Span, FrameHeader (Gen/GenMessages.v). Translator: go2v/methods.go (state-passing Gallina over the Go state: remaining []byte + err / backing array + offset,length + err; panics = None; counted for => go_for, range over a map => go_range over its entries in a universally quantified order). Trusted there: the translator, the per-construct semantics Base/GoSem.v (slices with cap abstracted to len, BigEndian, copy, nil, map as entry list / insertion log), the views absR/absW/abs<Message> of Proofs/GenTypedBufP.v, Proofs/GenMessagesP.v, and the typing hypotheses written in the theorems (byte values 0..255, []byte holds bytes, FrameHeader.reserved is the zero array)",
